@@ -8,6 +8,7 @@ import Proofs.Lemmas.DtdWire
 import Proofs.Lemmas.DtdUri
 import Proofs.Lemmas.DtdVal
 import Proofs.Lemmas.DtdChars
+import Proofs.Lemmas.DtdRecv
 
 namespace C03
 open Pywbem.Model Pywbem.Model.Dtd Pywbem.Model.XmlText Pywbem.Model.Sendable Pywbem.Model.Req Pywbem.Proto
@@ -220,10 +221,10 @@ theorem C03_listener_rsp_wellformed (msgid methodname desc : Str) (code : Nat) (
     the call (namespace filled in, host removed) whose encoding is the first child of the METHODCALL element, the
     header is `ns:Class` for a class and, for an instance, `ns:Class` followed — when there are keybindings — by `.` and
     the comma-joined tokens `name=value`, exactly one per keybinding of `lo`, in an order that is a permutation of
-    the order of the KEYBINDING elements, each token agreeing with its keybinding (`KeyAgrees`: strings quoted and
+    the order of the KEYBINDING elements and sorted by key name, each token agreeing with its keybinding (`KeyAgrees`: strings quoted and
     escaped — invertibly, `C03_uri_escape_invertible` —, booleans / integers the KEYVALUE text, datetimes quoted,
-    references the quoted header form of the referenced path, reals what `repr()` prints).
-    Not proved: that the order is the sorted one (only that it is a permutation). -/
+    references the quoted header form of the referenced path, reals what `repr()` prints), and the tokens are in code
+    point order of the key names (`SortedKeys`: what `sorted(keys)` yields). -/
 theorem C03_invoke_cimobject_keys (C : Codec) (K : KeyCodec) (dn : Str) (m obj : Arg) (params : List MParam)
     (h : Headers) (x : Xml) (hr : methodcall C K dn m obj params = .ok (h, x)) :
     ∃ (hdr n c : Str) (keys : Option (List Key)),
@@ -232,13 +233,44 @@ theorem C03_invoke_cimobject_keys (C : Codec) (K : KeyCodec) (dn : Str) (m obj :
       match keys with
       | none => hdr = n ++ ':' :: c
       | some ks => ∃ (named sorted : List (Str × Atom)) (toks : List Str) (rec : Path → Option Str),
-          namedKeys ks = some named ∧ sorted.Perm named ∧
+          namedKeys ks = some named ∧ sorted.Perm named ∧ SortedKeys sorted ∧
           Zip2 (fun kv t => KeyAgrees C K rec kv t) sorted toks ∧
-          hdr = (if toks.isEmpty then n ++ ':' :: c else n ++ ':' :: c ++ '.' :: joinComma toks) :=
-  methodcall_cimobject_keys C K dn m obj params h x hr
+          hdr = (if toks.isEmpty then n ++ ':' :: c else n ++ ':' :: c ++ '.' :: joinComma toks) := by
+  obtain ⟨hdr, n, c, keys, h1, h2, h3⟩ := methodcall_cimobject_keys C K dn m obj params h x hr
+  refine ⟨hdr, n, c, keys, h1, h2, ?_⟩
+  cases keys with
+  | none => exact h3
+  | some ks =>
+    obtain ⟨named, sorted, toks, rec, a1, a2, a3, a4, a5⟩ := h3
+    exact ⟨named, sorted, toks, rec, a1, a2, a3 ▸ foldr_insertKey_sorted named, a4, a5⟩
 
 /-- the escaping of string key values in the header (`\\` and `"` get a backslash) loses nothing -/
 theorem C03_uri_escape_invertible (s : Str) : uriUnescape (uriEscape s) = s := uriUnescape_escape s
+
+/-- **request_headers_agree on the document as received** (intrinsic operations).  The server's parser accepts the
+    request text; in the tree it returns, the NAME of the call element is the (attribute-normalised) operation name and
+    the namespace read from LOCALNAMESPACEPATH is the attribute-value-normalised CIMObject header: TAB / LF / CR of a
+    namespace arrive as blanks in the body while the header keeps them — exactly known finding C03-KF4 — and when the
+    namespace contains none of them (`plainStr`) the received body and the header name the same namespace. -/
+theorem C03_request_headers_agree_received (C : Codec) (dn : Str) (spec : OpSpec) (hmem : spec ∈ Pywbem.Generated.ops)
+    (ns : Arg) (args : List (String × Arg)) (h : Headers) (x : Xml)
+    (hshape : ∀ p ∈ args, argShape p.2 = true)
+    (hctx : ∀ n p, (n, PSrc.item0 p) ∈ spec.params → ∀ l, lookupArg args p = .list l → plainArg (listItem l 0) = true)
+    (hr : runOp C dn spec ns args = .ok (h, x)) :
+    ∃ t' n, par (declStr ++ Xml.ser x) = some t' ∧ header h "CIMObject" = some n ∧
+      bodyMethodName t' = some (normAttr false spec.name.toList) ∧
+      bodyNamespace t' = some (normAttr false n) ∧
+      (plainStr n = true → bodyNamespace t' = header h "CIMObject") := by
+  obtain ⟨_, _, h3, t', h4, _⟩ :=
+    C03_valid_document_wellformed x (C03_request_valid C dn spec hmem ns args h x hshape hctx hr)
+  unfold runOp at hr
+  obtain ⟨s, _, hr⟩ := bind_ok hr
+  obtain ⟨a1, n, a2, a3, a4⟩ := Proofs.DtdRecv.imethodcall_received C spec.name _ _ h x hr t' h4
+  exact ⟨t', n, h3.trans h4, a2, a1, a3, a4⟩
+
+/-- the negative side of C03-KF4, on the model: a namespace with a TAB is sent, header and received body then differ -/
+example : normAttr false "a\tb".toList ≠ "a\tb".toList ∧ plainStr "a\tb".toList = false ∧ plainStr "root/cimv2".toList = true := by
+  decide
 
 /-- **Listener responses, every status code.**  `C03_listener_rsp_valid` without the bound on the status code: the
     decimal digits Python's `str()` writes are XML characters for every natural number. -/
@@ -256,6 +288,61 @@ theorem C03_listener_rsp_valid_any_code (msgid methodname desc : Str) (code : Na
     refine ⟨⟨rfl, struct_listenerError msgid methodname code desc⟩, ?_⟩
     simp [listenerError, listenerEnvelope, E, charsOk, charsOkList, attrsCharsOk, h1, h2, h3, hcode]
     decide
+
+/-- **Every CIM-XML response the listener emits.**  `listenerRespond` is the decision of `do_POST` once the export
+    request has been parsed: for every message id, method name, list of (distinct) parameter names with the flag "is a
+    CIMInstance", queue state and error description (XML characters — the listener's own parser delivered them), the
+    response is valid, its text is accepted by the parser and what arrives is valid, and it echoes the request: the
+    MESSAGE ID and the NAME of EXPMETHODRESPONSE are the request's. -/
+theorem C03_listener_every_response (msgid methodname desc : Str) (params : List (Str × Bool)) (queueFull : Bool)
+    (h1 : strOk msgid = true) (h2 : strOk methodname = true) (h3 : strOk desc = true) :
+    validTree dtd (listenerRespond msgid methodname params queueFull desc) = true ∧
+    (∃ t', par (declStr ++ Xml.ser (listenerRespond msgid methodname params queueFull desc)) = some t' ∧
+      validTree dtd t' = true) ∧
+    bodyMessageId (listenerRespond msgid methodname params queueFull desc) = some msgid ∧
+    bodyMethodName (listenerRespond msgid methodname params queueFull desc) = some methodname := by
+  have key : ∀ x, (x = listenerSuccess msgid methodname ∨ ∃ code, x = listenerError msgid methodname code desc) →
+      validTree dtd x = true ∧ (∃ t', par (declStr ++ Xml.ser x) = some t' ∧ validTree dtd t' = true) ∧
+      bodyMessageId x = some msgid ∧ bodyMethodName x = some methodname := by
+    intro x hx
+    have hv : validTree dtd x = true := by
+      rcases hx with rfl | ⟨code, rfl⟩
+      · exact (C03_listener_rsp_valid_any_code msgid methodname desc 0 h1 h2 h3).1
+      · exact (C03_listener_rsp_valid_any_code msgid methodname desc code h1 h2 h3).2
+    obtain ⟨_, _, a3, t', a4, a5⟩ := C03_valid_document_wellformed x hv
+    refine ⟨hv, ⟨t', a3.trans a4, a5⟩, ?_, ?_⟩
+    · rcases hx with rfl | ⟨code, rfl⟩ <;>
+        simp [listenerSuccess, listenerError, listenerEnvelope, E, bodyMessageId, Xml.attr]
+    · rcases hx with rfl | ⟨code, rfl⟩ <;>
+        simp [listenerSuccess, listenerError, listenerEnvelope, E, bodyMethodName, bodyCall, Xml.attr]
+  apply key
+  unfold listenerRespond
+  split
+  · split
+    · split
+      · split
+        · split
+          · exact .inr ⟨_, rfl⟩
+          · exact .inl rfl
+        · exact .inr ⟨_, rfl⟩
+      · exact .inr ⟨_, rfl⟩
+    · exact .inr ⟨_, rfl⟩
+  · exact .inr ⟨_, rfl⟩
+
+/-- the decision itself: success exactly for ExportIndication with the single parameter NewIndication holding an
+    instance and room in the queue; otherwise an ERROR with status 4 (INVALID_PARAMETER), 1 (FAILED, queue full) or
+    7 (NOT_SUPPORTED, unknown export method) -/
+example : listenerRespond "1".toList "ExportIndication".toList [("NewIndication".toList, true)] false [] =
+      listenerSuccess "1".toList "ExportIndication".toList ∧
+    listenerRespond "1".toList "ExportIndication".toList [("NewIndication".toList, true)] true "q".toList =
+      listenerError "1".toList "ExportIndication".toList 1 "q".toList ∧
+    listenerRespond "1".toList "ExportIndication".toList [("newindication".toList, true)] false "d".toList =
+      listenerError "1".toList "ExportIndication".toList 4 "d".toList ∧
+    listenerRespond "1".toList "ExportIndication".toList [] false "d".toList =
+      listenerError "1".toList "ExportIndication".toList 4 "d".toList ∧
+    listenerRespond "1".toList "Foo".toList [("NewIndication".toList, true)] false "d".toList =
+      listenerError "1".toList "Foo".toList 7 "d".toList := by
+  refine ⟨?_, ?_, ?_, ?_, ?_⟩ <;> rfl
 
 /-- **`tocimxml(value)` / `tocimxmlstr(value)` of a plain CIM data value** (string, char16, boolean, integer, real,
     datetime, a list of them with NULL entries, or an object name / instance / class given as the value): whenever the
